@@ -56,7 +56,8 @@ register('C11', 'fault_enumeration',
 register('C12', 'fault_enumeration',
          "the product allow mode x reference mechanism x location spelling (x main source kind in the thorough tier) is "
          "enumerated over a scratch file tree and a stub peer (main sources incl. a response stream that names a remote "
-         "origin); fetch faults drive the fallback loop to a second candidate; "
+         "origin); fetch faults drive the fallback loop to a second candidate; the mechanisms that act on a built "
+         "schema also run on a schema restored from a pickle; "
          "every file open / URL request the process attempts is logged by an audit hook + the stub peer and classified by "
          "an independent classifier written against the statement (realpath/commonpath for the sandbox); non-influence is "
          "checked through marker components.",
